@@ -123,7 +123,7 @@ def gen_case(rng, tier, idx):
             if not any(a in c for c in cliques):
                 cliques.append((a,))
     return dict(kind=kind, attrs=attrs, shape=shape_d, cls='junction_tree' if kind != 'exact_lbp' else 'tree_factor_graph',
-                cliques=cliques, total=total, scale=float(gen.pick(rng, [0.1, 1.0, 3.0])), sweeps=3 * (2 * len(cliques) + d) + 60,
+                cliques=cliques, total=total, scale=float(gen.pick(rng, [0.1, 1.0, 3.0, 300.0])), sweeps=3 * (2 * len(cliques) + d) + 60,
                 ncalls=int(gen.pick(rng, [1, 1, 2])), damping=0.5, pot_seed=int(rng.randint(2 ** 31)))
 
 
